@@ -122,6 +122,10 @@ fn oracle(run: &Run) -> Vec<String> {
             Closer::Drain => reasons.push(format!("{:?}", Some("Drained".to_string()))),
             Closer::None | Closer::Abort(_) => reasons.push(format!("{:?}", Some("end-of-scenario".to_string()))),
             Closer::Kill => {}
+            Closer::StopDrainKill => {
+                reasons.push(format!("{:?}", Some("raced".to_string())));
+                reasons.push(format!("{:?}", Some("Drained".to_string())));
+            }
         }
         if sc.prog == P::SelfStop {
             reasons.push("None".to_string());
@@ -192,6 +196,9 @@ fn scenarios(thorough: bool) -> Vec<Sc> {
         }
         v.push(base(kind, Variant::Linked, Site::Handle, P::SelfKill, Closer::None));
         v.push(base(kind, Variant::Linked, Site::Handle, P::SelfStop, Closer::None));
+        // a stopper, a drainer and a killer at once: still exactly one terminal event, and a consistent one
+        v.push(base(kind, Variant::Linked, Site::Handle, P::Awaits, Closer::StopDrainKill));
+        v.push(base(kind, Variant::Linked, Site::PostStop, P::Awaits, Closer::StopDrainKill));
         // a supervisor that is draining its backlog is alive: it must still be told
         for (site, prog, closer) in [
             (Site::Handle, P::Err, Closer::None),
